@@ -39,7 +39,9 @@ from common import cstr, clist, cbool, copt, cpair, cz, cn
 THEOREMS = [
     'C09_normalize_float_normal_form', 'C09_normalize_float_classes',
     'C09_normalize_float_kept_distinct', 'C09_normal_form_fixed',
-    'C09_normalize_float_value',
+    'C09_normalize_float_value', 'C09_same_name_iff',
+    'C09_different_values_different_names', 'C09_like_chain_last_wins',
+    'C09_like_inherits',
     'C09_normalize_float_idempotent', 'C09_parse_material_density_fixed',
     'C09_parse_material_classes', 'C09_like_but_rho',
     'C09_like_but_void', 'C09_pot_fill_provenance',
@@ -48,6 +50,7 @@ THEOREMS = [
     'C09_geomcomp_one_line', 'C09_geomcomp_lines',
     'C09_volume_gets_leaf_material', 'C09_compositions_exact',
     'C09_compositions_distinct', 'C09_geomcomp_name_has_composition',
+    'C09_write_compositions', 'C09_block_head',
 ]
 TRUSTED = [
     'hand-written model coq/C09/Model.v (tied by execution only); pot_fill '
@@ -461,6 +464,133 @@ def tie_likebut(res, tier, rng):
                       found_input=False)
 
 
+OTHER_OPTIONS = ['imp:n=1', 'u=3', 'trcl=(1 0 0)', 'imp:p=2', 'u=7']
+
+
+def gen_like_cards(rng, wild):
+    '''{id: ('plain', tokens, opts) | ('like', n, opts)} with LIKE chains of
+    up to four hops; opts = list of ('mat', s) | ('rho', s) | ('other', text);
+    the LIKE graph is acyclic (a cycle makes the repository loop forever).'''
+    cards = OrderedDict()
+    ids = rng.sample(range(1, 40), rng.randint(2, 7))
+
+    def options(is_base):
+        out = [('other', 'imp:n=1')] if is_base else []
+        for _ in range(rng.choice([0, 1, 1, 2, 3])):
+            kind = rng.random()
+            if kind < 0.35:
+                out.append(('mat', rng.choice(['0', '1', '2', '02', '5', '00'])))
+            elif kind < 0.7:
+                number = c09_gen.gen_number(rng, wild=wild)
+                out.append(('rho', c09_gen.gen_spellings(rng, number, 1,
+                                                         wild=wild)[0][0]))
+            else:
+                out.append(('other', rng.choice(OTHER_OPTIONS)))
+        rng.shuffle(out)
+        return out
+    done = []
+    for k in ids:
+        if done and rng.random() < 0.65:
+            target = rng.choice(done)
+            if rng.random() < 0.04:
+                target = 99                       # KeyError
+            cards[k] = ('like', target, options(False))
+        else:
+            mat = rng.choice(['0', '1', '2', '3', '01'])
+            toks = [mat]
+            if int(mat) != 0:
+                number = c09_gen.gen_number(rng, wild=wild)
+                toks.append(c09_gen.gen_spellings(rng, number, 1,
+                                                  wild=wild)[0][0])
+            cards[k] = ('plain', toks, options(True))
+        done.append(k)
+    # cards may refer to cells defined later in the deck
+    items = list(cards.items())
+    if rng.random() < 0.5:
+        rng.shuffle(items)
+    return OrderedDict(items)
+
+
+def render_options(opts, rng):
+    parts = []
+    for kind, text in opts:
+        if kind == 'mat':
+            parts.append(rng.choice(['mat=', 'MAT=', 'mat ']) + text)
+        elif kind == 'rho':
+            parts.append(rng.choice(['rho=', 'RHO=', 'rho ']) + text)
+        else:
+            parts.append(text)
+    return ' ' + ' '.join(parts)
+
+
+def ccard(card):
+    def copts(opts):
+        return clist('(OMat %s)' % cstr(t) if k == 'mat' else
+                     '(ORho %s)' % cstr(t) if k == 'rho' else 'OOther'
+                     for k, t in opts)
+    if card[0] == 'plain':
+        return f'(Plain {clist(cstr(t) for t in card[1])} {copts(card[2])})'
+    return f'(Like {cz(card[1])} {copts(card[2])})'
+
+
+def tie_likechain(res, tier, rng):
+    '''ParseMCNPCell.parse_one_cell (the LIKE loop, apply_but, the keyword
+    scan) on dictionaries of parsed cards vs Model.card_material.'''
+    from t4_geom_convert.Kernel.FileHandlers.Parser.ParseMCNPCell import \
+        ParseMCNPCell
+    n = 120 if tier == 'quick' else 1200
+    cases, meta = [], []
+    depth_seen = 0
+    with impl.mip_parser(COMP_DECK) as parser:
+        worker = ParseMCNPCell(parser, None, {})
+        for i in range(n):
+            cards = gen_like_cards(rng, wild=i % 3 == 0)
+            parsed = OrderedDict()
+            for k, card in cards.items():
+                if card[0] == 'plain':
+                    parsed[k] = (' ' + ' '.join(card[1]), ' -1',
+                                 render_options(card[2], rng))
+                else:
+                    parsed[k] = ('', rng.choice([' like %d but', ' LIKE %d BUT'])
+                                 % card[1], render_options(card[2], rng))
+            for rank, k in enumerate(cards):
+                def call(rank=rank, k=k):
+                    cell = worker.parse_one_cell(parsed, rank, None, parsed[k])
+                    return (str(cell.materialID), cell.density)
+                out = guarded(call)
+                hops, cur = 0, cards[k]
+                while cur[0] == 'like' and cur[1] in cards:
+                    hops, cur = hops + 1, cards[cur[1]]
+                depth_seen = max(depth_seen, hops)
+                cases.append(cpair(
+                    clist(cpair(cz(j), ccard(c)) for j, c in cards.items()),
+                    cz(k),
+                    cres(out, lambda o: cpair(cstr(o[0]), copt(o[1], cstr)))))
+                meta.append((dict(parsed), k, out))
+                res.seen(('likechain', tuple(parsed.items()), k),
+                         nontrivial=hops > 0)
+                res.count(f'likechain:hops-{min(hops, 4)}')
+    bad, errs = run_cases(
+        'c09_chain', HEADER,
+        'idict card * Z * res (string * option string)',
+        'check_card_material', cases, chunk=150)
+    res.obligation(f'tie:likechain ({len(cases)} cards of {n} dictionaries, '
+                   f'LIKE chains up to {depth_seen} hops: parse_one_cell, '
+                   'material and density)', not bad and not errs
+                   and depth_seen >= 3,
+                   f'{len(bad)} disagreements {errs[:1]}')
+    for idx in bad[:10]:
+        parsed, k, out = meta[idx]
+        res.violation('correspondence',
+                      f'parse_one_cell of card {k} in {parsed}: impl {out} '
+                      'differs from the model',
+                      {'input': {'cards': {str(j): list(v)
+                                           for j, v in parsed.items()},
+                                 'card': k}, 'observed': out,
+                       'theorem_or_correspondence': 'tie:likechain'},
+                      found_input=False)
+
+
 # ---------------------------------------------------------------------------
 # pot_fill on synthetic dictionaries
 # ---------------------------------------------------------------------------
@@ -495,7 +625,7 @@ def leaves_spec(cells, key, seen=()):
 
 
 def tie_fill(res, tier, rng):
-    n = 250 if tier == 'quick' else 2500
+    n = 160 if tier == 'quick' else 2500
     cases, meta = [], []
     for i in range(n):
         cells = c09_gen.gen_cells(rng, malformed=i % 10 == 9)
@@ -643,7 +773,7 @@ def gen_vols(rng, cells):
 
 
 def tie_geomcomp(res, tier, rng, real):
-    n = 250 if tier == 'quick' else 2500
+    n = 160 if tier == 'quick' else 2500
     cases, meta = [], []
     for _ in range(n):
         cells = c09_gen.gen_cells(rng)
@@ -742,7 +872,7 @@ def oracle_comp(cells, out):
 
 
 def tie_comp(res, tier, rng, real):
-    n = 250 if tier == 'quick' else 2500
+    n = 160 if tier == 'quick' else 2500
     cases, meta = [], []
     with impl.mip_parser(COMP_DECK) as parser:
         for _ in range(n):
@@ -792,6 +922,90 @@ def tie_comp(res, tier, rng, real):
                       f'{str(out)[:300]}',
                       {'input': payload, 'observed': out,
                        'theorem_or_correspondence': 'tie:comp'},
+                      found_input=False)
+
+
+def ctext(text):
+    '''A text with newlines as a Coq term over the model's [nl].'''
+    return '(' + ' ++ nl ++ '.join(cstr(part) for part in text.split('\n')) + ')'
+
+
+def tie_writecomp(res, tier, rng):
+    '''writeT4Composition byte for byte on synthetic dictionaries vs
+    Model.write_compositions (nuclide lists and rescaled concentrations are
+    C10's and are handed to the model as data).'''
+    import contextlib
+    import warnings
+    from t4_geom_convert.Kernel.Composition.CompositionConversionMCNPToT4 \
+        import compositionConversionMCNPToT4
+    from t4_geom_convert.Kernel.Composition.ConstructCompositionT4 import \
+        constructCompositionT4, extract_isotopes_fractions
+    from t4_geom_convert.Kernel.FileHandlers.Writer.WriteT4Composition import \
+        writeT4Composition
+    n = 150 if tier == 'quick' else 1500
+    cases, meta = [], []
+    with impl.mip_parser(COMP_DECK) as parser:
+        cards = compositionConversionMCNPToT4(parser)
+        mcs = clist(
+            f'(mkMcard {cz(k)} {cbool(bool(v.atom_fracs))} '
+            + clist(cpair(cstr(a), cstr(b))
+                    for a, b in extract_isotopes_fractions(v.isotopes)) + ')'
+            for k, v in cards.items())
+        for _ in range(n):
+            cells = c09_gen.gen_cells(rng)
+            conc = concrete_cells(cells)
+
+            def call():
+                buf = io.StringIO()
+                with warnings.catch_warnings(), \
+                        contextlib.redirect_stdout(io.StringIO()):
+                    warnings.simplefilter('ignore')
+                    writeT4Composition(parser, conc, buf)
+                    comps = constructCompositionT4(parser, conc)
+                return buf.getvalue(), comps
+            out = guarded(call)
+            pw = []
+            if out[0] == 'ok':
+                for key, lst in out[1][1].items():
+                    for comp in lst:
+                        if comp.typeDensity == 'POINT_WISE':
+                            pw.append((comp.material + '_' + comp.valueOfDensity,
+                                       comp.listMaterialComposition))
+                text = out[1][0]
+                expected = f'(Ok {ctext(text)})'
+                n_blocks = text.count(' 300 ')
+                res.count(f'writecomp:blocks-{min(n_blocks, 6)}')
+                # the property on the written text itself
+                lines = text.split('\n')
+                if int(lines[2]) != n_blocks:
+                    res.violation('impl-violation',
+                                  f'COMPOSITION count line {lines[2]} but '
+                                  f'{n_blocks} blocks', {'input': {'cells': cells}},
+                                  found_input=True)
+            else:
+                expected = f'(Err {out[1]})'
+                res.count('writecomp:' + out[1])
+            cases.append(cpair(
+                mcs, cdict(cells),
+                clist(cpair(cstr(name), clist(cpair(cstr(a), cstr(b))
+                                              for a, b in isos))
+                      for name, isos in pw), expected))
+            meta.append((cells, out if out[0] == 'err' else ('ok', out[1][0])))
+            res.seen(('writecomp', list(cells.items())))
+    bad, errs = run_cases(
+        'c09_wcomp', HEADER,
+        'list mcard * dict cell * list (string * list (string * string)) * '
+        'res string', 'check_write_comp', cases, chunk=40)
+    res.obligation(f'tie:writecomp ({len(cases)} dictionaries: the text '
+                   'writeT4Composition writes, byte for byte)',
+                   not bad and not errs, f'{len(bad)} disagreements {errs[:1]}')
+    for idx in bad[:10]:
+        cells, out = meta[idx]
+        res.violation('correspondence',
+                      f'writeT4Composition differs from the model: impl '
+                      f'{str(out)[:300]}',
+                      {'input': {'cells': cells}, 'observed': str(out),
+                       'theorem_or_correspondence': 'tie:writecomp'},
                       found_input=False)
 
 
@@ -964,13 +1178,16 @@ def corpus(res):
     COMPOSITION block must hold exactly the expected names (+ m0).'''
     import t4eval
     n_ok = 0
-    for name, text, args, probes, comps in c09_corpus.CORPUS:
-        res.seen(('corpus', name), nontrivial=True)
-        res.count('corpus:decks')
+    runs = [(name, text, args + extra, probes, comps)
+            for name, text, args, probes, comps in c09_corpus.CORPUS
+            for extra in c09_corpus.VARIANTS]
+    for name, text, args, probes, comps in runs:
+        res.seen(('corpus', name, tuple(args)), nontrivial=True)
+        res.count('corpus:conversions')
         conv = impl.convert(text, args)
         if not conv.ok:
             res.violation('impl-violation',
-                          f'corpus deck {name} rejected: {conv.exc}: '
+                          f'corpus deck {name} {args} rejected: {conv.exc}: '
                           f'{conv.msg[:200]}', {'input': {'deck': text}},
                           found_input=True)
             continue
@@ -988,7 +1205,7 @@ def corpus(res):
                     != [[name_value(want)]]:
                 good = False
                 res.violation('impl-violation',
-                              f'corpus deck {name}: point {point} lies in '
+                              f'corpus deck {name} {args}: point {point} lies in '
                               f'volume(s) {owners} attached to {got}, expected '
                               f'{want}', {'input': {'deck': text,
                                                     'point': list(point)}},
@@ -998,14 +1215,14 @@ def corpus(res):
                 != {name_value(x) for x in comps}:
             good = False
             res.violation('impl-violation',
-                          f'corpus deck {name}: compositions {sorted(have)}, '
+                          f'corpus deck {name} {args}: compositions {sorted(have)}, '
                           f'expected {sorted(comps)}',
                           {'input': {'deck': text}}, found_input=True)
         n_ok += good
-    res.obligation(f'corpus ({len(c09_corpus.CORPUS)} hand-written decks: '
-                   'probe points and composition sets)',
-                   n_ok == len(c09_corpus.CORPUS),
-                   f'{n_ok} decks as expected')
+    res.obligation(f'corpus ({len(c09_corpus.CORPUS)} hand-written decks, each '
+                   f'in {len(c09_corpus.VARIANTS)} inlining modes: probe '
+                   'points and composition sets)', n_ok == len(runs),
+                   f'{n_ok} of {len(runs)} conversions as expected')
 
 
 # ---------------------------------------------------------------------------
@@ -1071,7 +1288,7 @@ def sweep_decks(res, tier, rng):
     return real
 
 
-def run(res, tier, seed, proofs_ok):
+def _run(res, tier, seed, proofs_ok, cov):
     rng = random.Random(seed)
     res.rule = ('(1) every string of length <= 6/7 over 012.-+ed, doctests, '
                 'structured spellings (sign, integer part, kept fraction, '
@@ -1087,17 +1304,23 @@ def run(res, tier, seed, proofs_ok):
                 'spellings, one deck in five with out-of-guard spellings; '
                 'non-trivial = string longer than one character, dictionary '
                 'with at least one new cell or an error, any deck')
-    witnesses(res)
-    corpus(res)
+    with cov:
+        witnesses(res)
+        corpus(res)
     tie_norm(res, tier, rng)
     sweep_spellings(res, tier, rng)
-    tie_material(res, tier, rng)
-    tie_likebut(res, tier, rng)
-    tie_fill(res, tier, rng)
+    with cov:
+        tie_material(res, tier, rng)
+        tie_likebut(res, tier, rng)
+        tie_likechain(res, tier, rng)
+        tie_fill(res, tier, rng)
     real = sweep_decks(res, tier, rng)
-    tie_geomcomp(res, tier, rng, [r[:4] for r in real])
-    tie_comp(res, tier, rng, [r[:4] for r in real])
+    with cov:
+        tie_geomcomp(res, tier, rng, [r[:4] for r in real])
+        tie_comp(res, tier, rng, [r[:4] for r in real])
     tie_pipeline(res, tier, rng, real)
+    with cov:
+        tie_writecomp(res, tier, rng)
     # a tie that could not be evaluated (coqc error, empty sweep) must not pass
     # silently: the driver only counts violations
     if not res.violations or all(v.get('class') for v in res.violations):
@@ -1107,6 +1330,32 @@ def run(res, tier, seed, proofs_ok):
                               f'{name} could not be discharged: {detail[:300]}',
                               {'theorem_or_correspondence': name,
                                'detail': detail[:1500]}, found_input=False)
+
+
+
+def run(res, tier, seed, proofs_ok):
+    '''Witnesses, corpus and function-level ties run under a line-coverage
+    tracer restricted to the anchored functions: every line of them that is
+    not listed as outside the material path must be executed.'''
+    import c09_cov
+    cov = c09_cov.LineCov(c09_cov.anchored_functions())
+    _run(res, tier, seed, proofs_ok, cov)
+    total, missing = cov.missing(c09_cov.UNREACHABLE)
+    res.obligation('coverage: witnesses, corpus and function-level ties '
+                   'execute every line of the anchored functions '
+                   f'({total} lines of {len(cov.codes)} code objects: '
+                   'normalize_float, parse_material, parse_one_cell, apply_but, '
+                   'pot_fill, constructGeomCompT4, writeT4GeomComp, '
+                   'constructCompositionT4, writeT4Composition)', not missing,
+                   f'never executed: {missing[:6]}')
+    res.extra['anchored_lines'] = total
+    if missing:
+        res.violation('harness-error',
+                      'generated inputs no longer reach these lines of the '
+                      f'anchored code: {missing[:8]}',
+                      {'theorem_or_correspondence': 'coverage',
+                       'input': {'lines': [list(m) for m in missing[:20]]}},
+                      found_input=False)
 
 
 def replay(path):
